@@ -25,6 +25,7 @@ def showSys : Sys → String
   | .writeFail r => s!"write-fail:{r}"
   | .fsync ok => s!"fsync:{if ok then 1 else 0}"
   | .fdatasync ok => s!"fdatasync:{if ok then 1 else 0}"
+  | .ftruncate n => s!"ftruncate:{n}"
 
 def showJRes : JRes → String
   | .ok => "ok" | .io => "io" | .poisoned => "poisoned"
@@ -68,7 +69,11 @@ def wrCmd (s : WrSession) (t : CompTable) (ws : List String) : Option (WrSession
       let (d, r) := jstep s.db (.persist m)
       some ({ s with db := d }, wrReply s.db d r)
     | _ => some (s, "bad-op")
+  | ["wr.op", "rotate"] =>
+    let (d, r) := jstep s.db .rotate
+    some ({ s with db := d }, wrReply s.db d r)
   | ["wr.file"] => some (s, toHex s.db.w.os)
+  | ["wr.files"] => some (s, "|".intercalate ((s.db.sealed.map fun p => toHex p.1) ++ [toHex s.db.w.os]))
   | _ => none
 
 end Driver
